@@ -21,7 +21,6 @@ import vlib
 
 UNIT = 512
 MISMATCH = ("wrongdig", "sizeplus", "sizeminus")
-FAULT_ALT = {"f500l": "rstl", "f500a": "rsta"}
 
 
 def load_traces(fn):
@@ -46,10 +45,7 @@ def to_drv(s, sid, rng):
     if cf["len"] == 0 and cf["decl"] in ("right", "digonly"):
         scn["alg"] = "sha256"               # BlobPut knows the empty blob only by its sha256 digest (zeroDig)
     for st in s["script"]:
-        act = st["act"]
-        if act in FAULT_ALT and rng.random() < 0.5:
-            act = FAULT_ALT[act]            # connection error instead of a 5xx: same for reghttp
-        scn["script"].append({"on": st["on"], "act": act, "k": st["k"], "via": st["via"]})
+        scn["script"].append({"on": st["on"], "act": st["act"], "k": st["k"], "via": st["via"]})
     # the model's DefChunk is 2: an unset host.BlobChunk with WithBlobSize(2 units) is the same
     if cf["dest"] == "reg" and cf["chunk"] == 2 and rng.random() < 0.25:
         scn["chunk"], scn["defch"] = 0, 2
@@ -70,13 +66,13 @@ def observed(events):
     for e in events:
         k = e["ev"]
         if k == "post":
-            out.append(("mount" if e["mount"] else "post", 0, 0, e["status"] or 500, 0))
+            out.append(("mount" if e["mount"] else "post", 0, 0, e["status"], 0))
         elif k == "patch":
-            out.append(("patch", max(e["start"], 0), e["n"], e["status"] or 500, e["acc"]))
+            out.append(("patch", max(e["start"], 0), e["n"], e["status"], e["acc"]))
         elif k == "put":
-            out.append(("put", 0, e["n"], e["status"] or 500, 0))
+            out.append(("put", 0, e["n"], e["status"], 0))
         elif k == "get":
-            out.append(("get", 0, 0, e["status"] or 500, 0))
+            out.append(("get", 0, 0, e["status"], 0))
         elif k == "delete":
             out.append(("delete", 0, 0, e["status"], 0))
         elif k == "nosession":
